@@ -135,3 +135,15 @@ PROPS.update({
 TECHNIQUE.update({
     "C05": "codec extraction from MIR expressions: bit-field leaves of encoders vs masked extractions in the backward slice of each decoded field, inverse tag relations, symbolic length forms",
 })
+
+PROPS["C09"] = {
+    "decided": "Five necessary conditions of exact bookkeeping: (G1) every overlap count returned by the coalescing helper merge(v,k) flows into the new-bytes result of Segments::merge; (G2) Segments::is_complete compares the start offset of a held range; (G3) in Segments::gaps a gap whose end is the window bound is pushed only under start-of-gap < window end (no list invariant can order a value against a free parameter); (G4) the sorted range list is edited only by order-preserving operations (insert, push, remove, in-place edits of one range); (G5) the running start of the next gap is the window start, a max with it, the end of the range found to begin exactly at the window start, or the end of the range just passed.",
+    "not_decided": "Exactness of insert-and-coalesce and of gap enumeration for all sequences (an algorithmic claim over the sorted-disjoint invariant; needs a deductive verifier or exhaustive execution).",
+}
+PROPS["C16"] = {
+    "decided": "The whole mechanism: in every impl of PDUTransport::receive the window of the buffer handed to PDU::decode is bounded above by the usize returned by the socket receive on that same buffer (..n, ..min(n, _), take(n)); a mere data dependence on the count is not accepted.",
+    "not_decided": "Behaviour of transports outside this crate (e.g. test transports).",
+}
+PROPS["C08"]["decided"] = PROPS["C08"]["decided"].replace("the NAK queue is only ever replaced by get_all_naks();", "the NAK queue is only ever replaced by get_all_naks() and requests leave it only by drain in send_naks (mutator whitelist); after EOF with has_naks() every path queues get_all_naks() or schedules a delayed check of [0, EOF size); gaps bounded by the window end are pushed only under start < end and never start before the window (C09-G3/G5);")
+TECHNIQUE["C09"] = "def-use, read-dependence, guarded construction (world-set dataflow), mutator whitelist and provenance rules over MIR"
+TECHNIQUE["C16"] = "provenance of the decode window's bound over pre-coroutine-transform MIR of the async receive body"
